@@ -46,6 +46,13 @@ type Freeze struct {
 	World     []prog.Step `json:"world"`     // what A and B (who = w%2) do while C's request is frozen
 	Admin     int         `json:"admin"`     // 0 nothing; 1 history view; 2 compaction attempt (non-forced) while frozen
 	Post      []prog.Step `json:"post"`      // afterwards, sequential (who = w%3)
+	// Conflict != 0: before the freeze A removes something (array element, text
+	// range, paragraph: 1..3) that C then learns about (two syncs each), while B -
+	// not knowing the removal - makes an unsent change next to / inside it; the
+	// world starts with two syncs of B (push the change, then report the removal
+	// as seen). CA is the position parameter shared by the two edits.
+	Conflict int `json:"conflict"`
+	CA       int `json:"ca"`
 }
 
 var freezeParkNames = []string{
@@ -89,6 +96,10 @@ func genFreeze() *rapid.Generator[Freeze] {
 		}
 		if rapid.IntRange(0, 2).Draw(t, "snap") == 0 {
 			f.Threshold = rapid.IntRange(1, 4).Draw(t, "threshold")
+		}
+		if rapid.IntRange(0, 1).Draw(t, "conflict") == 0 {
+			f.Conflict = rapid.IntRange(1, 3).Draw(t, "kind")
+			f.CA = rapid.IntRange(0, 7).Draw(t, "ca")
 		}
 		return f
 	})
@@ -183,6 +194,47 @@ func runFreeze(c Freeze) (fail *kit.Failure, ev map[string]int, hist []string) {
 	}
 	if f := seq(c.Pre, 3, "warm-up"); f != nil {
 		return f, ev, hist
+	}
+	if c.Conflict != 0 {
+		for round := 0; round < 2; round++ {
+			for i := range ps {
+				if err := ps[i].c.Sync(ctx); err != nil {
+					return kit.Failf("SYNCFAIL", "%s (before the conflict episode): %v", name(i), err), ev, hist
+				}
+				s.WaitIdle()
+			}
+		}
+		// make sure there is something to remove, known to everybody
+		for _, st := range []prog.Step{{Op: "aadd", B: 1}, {Op: "aadd", B: 2}, {Op: "tedit", A: 0, B: 0, C: 5}, {Op: "sync"}} {
+			if st.Op == "sync" {
+				for round := 0; round < 2; round++ {
+					for i := range ps {
+						if err := ps[i].c.Sync(ctx); err != nil {
+							return kit.Failf("SYNCFAIL", "%s (before the conflict episode): %v", name(i), err), ev, hist
+						}
+						s.WaitIdle()
+					}
+				}
+				continue
+			}
+			_, _ = prog.ApplyEdit(ps[0].d, st)
+		}
+		remove := [][2]prog.Step{
+			{{Op: "adel", A: c.CA}, {Op: []string{"adel", "ains"}[c.CA%2], A: c.CA, B: 5}},
+			{{Op: "tedit", A: c.CA, B: 3, C: 0}, {Op: "tedit", A: c.CA + 1, B: 0, C: 1}},
+			{{Op: "trdel", A: c.CA}, {Op: "trtext", A: c.CA, B: 1, C: 3}},
+		}[c.Conflict-1]
+		dA, errA := prog.ApplyEdit(ps[0].d, remove[0])
+		dB, errB := prog.ApplyEdit(ps[1].d, remove[1])
+		logf("conflict episode: A: %s (err %v); B, not knowing it: %s (err %v)", dA, errA, dB, errB)
+		for _, i := range []int{0, 0, 2, 2} {
+			if err := ps[i].c.Sync(ctx); err != nil {
+				return kit.Failf("SYNCFAIL", "%s (conflict episode): %v", name(i), err), ev, hist
+			}
+			s.WaitIdle()
+		}
+		c.World = append([]prog.Step{{Who: 1, Op: "sync"}, {Who: 1, Op: "sync"}}, c.World...)
+		ev["conflict_episode"]++
 	}
 	C := ps[2]
 	for _, st := range c.FEdits {
